@@ -55,7 +55,7 @@ void calcVarExpressed(double ss, dvector *eval, dvector *varexp)
 /* ss is the sum of squares, eval = eigenvalue  varexp is an object that is resized for each component */
 {
   for(size_t i = 0; i < eval->size; i++){
-    DVectorAppend(varexp, (eval->data[i]/ss) * 100);
+    DVectorAppend(varexp, (ss > 0.f) ? (eval->data[i]/ss) * 100 : 0.f);
     #ifdef DEBUG
     printf("Variance expressed for PC %u\t %f\n", (unsigned int)i, (getDVectorValue(eval, i)/ss) * 100);
     #endif
@@ -272,6 +272,12 @@ void PCA(matrix *mx, int scaling, size_t npc, PCAMODEL* model, ssignal *s)
         MT_DVectorMatrixDotProduct(E, t, p);
         /* calc the vectors product t'*t = Sum(t[i]^2) */
         mod_t = DVectorDVectorDotProd(t, t);
+
+        /* nothing left to extract (rank exhausted) or non finite data: store a null component */
+        if(!(mod_t > 0.f) || _isinf_(mod_t)){
+          eval->data[pc] = 0.f;
+          break;
+        }
 
         /* division of (t'*E)/t'*t (mx.p/mx.mod_t_old) for calculate the p' vector that represents the loadings */
         for(i = 0; i < p->size; i++)
